@@ -157,24 +157,34 @@ class Lang:
 
     # -- subject languages of match / search / fullmatch ------------------------------------------------
     def alternatives(self):
-        """top-level alternatives as (has_caret, core RegLan, has_dollar)"""
-        nodes = list(self.tree)
-        if len(nodes) == 1 and nodes[0][0] is C.BRANCH:
-            alts = [list(a) for a in nodes[0][1][1]]
-        else:
-            alts = [nodes]
-        out = []
-        for alt in alts:
+        """top-level alternatives as (has_caret, core RegLan, has_dollar).  The parser factors a common prefix (e.g. '^')
+        out of a top-level alternation, so anchors are collected around an inner BRANCH as well."""
+        def strip(alt):
             caret = dollar = False
+            alt = list(alt)
             while alt and alt[0][0] is C.AT and alt[0][1] in (C.AT_BEGINNING, C.AT_BEGINNING_STRING):
                 caret = True
                 alt = alt[1:]
             while alt and alt[-1][0] is C.AT and alt[-1][1] in (C.AT_END, C.AT_END_STRING):
                 dollar = "$" if alt[-1][1] is C.AT_END else "Z"
                 alt = alt[:-1]
+            return caret, alt, dollar
+
+        def expand(alt, caret0=False, dollar0=False):
+            caret, body, dollar = strip(alt)
+            caret, dollar = caret or caret0, dollar or dollar0
+            if len(body) == 1 and body[0][0] is C.BRANCH:
+                out = []
+                for sub in body[0][1][1]:
+                    out += expand(list(sub), caret, dollar)
+                return out
+            return [(caret, body, dollar)]
+
+        out = []
+        for caret, body, dollar in expand(list(self.tree)):
             if self.multiline and (caret or dollar):
                 raise RxUnsupported("MULTILINE anchors: use line-level translation")
-            out.append((caret, self.seq(alt), dollar))
+            out.append((caret, self.seq(body), dollar))
         return out
 
     def _tail(self, dollar):
